@@ -15,6 +15,14 @@ func buildCases(id string, g *Gen) []*Case {
 		return casesC05(g)
 	case "C08":
 		return casesC08(g)
+	case "C09":
+		return casesC09(g)
+	case "C10":
+		return casesC10(g)
+	case "C11":
+		return casesC11(g)
+	case "C12":
+		return casesC12(g)
 	case "C19":
 		return casesC19(g)
 	}
